@@ -13,7 +13,8 @@ C12 driver: one JSON request per line on stdin, one JSON answer per line on stdo
   {"op":"placement","expr":E,"leaves":[[text,ty],..],"obs":{"code":text,"incs":[..]}|null} -> {"holds":b,"why":s}   (PlacementSpec)
   {"op":"alive","expr":E,"leaves":[[text,ty],..],"members":[name..],"lines":[{"k":"open"|"close"|"for"|"stmt","t":text,"d":[declared..],"u":[used..]}..]}
       -> {"holds":b,"why":s}   (AliveSpec: the line that holds the call mentions only variables alive there)
-  {"op":"package","expr":E,"backend":"atlas"|"cms_aod"|"cms_miniaod","injects":[{"header_includes":[..],"body_includes":[..]}..],"hdrCalls":b}
+  {"op":"package","expr":E,"backend":"atlas"|"cms_aod"|"cms_miniaod","injects":[{"header_includes":[..],"body_includes":[..]}..],"hdrCalls":b[,"pre":[..],"post":[..]]}
+      (pre / post: include requests other constructs of the query make before / after the expression's own: withCompanions)
       -> {"files":[{"name":..,"incs":[..],"calls":b}..],"holds":b} | {"err":class}     (model: tr + packageFiles)
   {"op":"pkgspec","files":[{"name":..,"incs":[..],"calls":b}..]} -> {"holds":b,"culprit":name|null}   (PackageSpec on observed files)
   E ::= {"k":"leaf","t":text,"ty":type} | {"k":"call","f":name,"args":[E..]}
@@ -193,9 +194,15 @@ def handle (line : String) : String :=
         let mds ← mdsJ.toList.mapM fun m => do
           pure ({ headerIncs := ← strList (← m.getObjVal? "header_includes"), bodyIncs := ← strList (← m.getObjVal? "body_includes") } : Inject)
         let hdrCalls ← (← j.getObjVal? "hdrCalls").getBool?
+        let pre := match j.getObjVal? "pre" with
+          | .ok p => (strList p).toOption.getD []
+          | .error _ => []
+        let post := match j.getObjVal? "post" with
+          | .ok p => (strList p).toOption.getD []
+          | .error _ => []
         match tr cfg e with
         | .ok v =>
-          let files := packageFiles b v.incs mds hdrCalls
+          let files := packageFiles b (withCompanions pre v.incs post) mds hdrCalls
           pure (Json.mkObj [("files", Json.arr (files.map fun f => Json.mkObj [("name", f.name), ("incs", jstrs f.incs), ("calls", f.callsMath)]).toArray),
             ("holds", PackageSpec files)])
         | .error er => pure (Json.mkObj [("err", errClass er)])
